@@ -6,16 +6,16 @@ CONSTANTS
   Delays = {TRUE}
   Lates = {FALSE}
   Threads = {1}
-  MaxAdds = 2
+  MaxAdds = 1
   MaxEnds = 100
-  AtomicAdd = TRUE
+  AtomicAdd = FALSE
   SplitGet = FALSE
   RecheckOnStore = TRUE
   StaleTimers = FALSE
-  EarlyDel = FALSE
+  EarlyDel = TRUE
   MaxGen = 2
   BatchedKinds = {"pub", "join", "leave", "other"}
-  SubSplit = FALSE
+  SubSplit = TRUE
   CfgSwitch = "none"
 VIEW SubView
 INVARIANTS TypeOK
